@@ -55,7 +55,8 @@ def _ampm_group(ctx, text):
             continue
         g = P.group(name)
         try:
-            nfa = e2.build_nfa(g.child, P)
+            from .lang import _strip_looks
+            nfa = e2.build_nfa(_strip_looks(g.child), P)
         except Undecided:
             continue
         if 2 in e2.nfa_match_prefixes(nfa, "pm") and 2 in e2.nfa_match_prefixes(nfa, "am"):
